@@ -504,9 +504,15 @@ impl Template {
                 (MaybeOpen | Key, c) if c.is_ascii_whitespace() => {
                     // If we find whitespace where the variable key is supposed to go,
                     // backtrack and act as if this was a literal.
-                    buf.push(c);
-                    let mut new = String::from("{");
+                    // After a lone `{` the buffer still holds the literal text that precedes the
+                    // brace; after key characters it holds those (the literal was already emitted).
+                    let mut new = match state {
+                        MaybeOpen => mem::take(&mut buf),
+                        _ => String::new(),
+                    };
+                    new.push('{');
                     new.push_str(&buf);
+                    new.push(c);
                     buf.clear();
                     parts.push(TemplatePart::Literal(TabExpandedString::new(
                         new.into(),
